@@ -246,4 +246,15 @@ def run(case):
                     out.check(np.array_equal(np.asarray(r3), np.asarray(r)), "remove:second_call_differs", "")
     if keep is not None:
         out.check(np.array_equal(inp, keep), f"{op}:input_array_modified", "")
+    elif op == "flip" and not out.violations:
+        # the file is replaced by another stack under the same name: the next call must see the new content
+        I2 = I[::-1].copy()
+        I2[:, 0, 0] += 100
+        oracle.mrc_write("in.mrc", np.ascontiguousarray(I2.transpose(2, 1, 0)))
+        exp2 = I2
+        for a_ in ([c["axes"]] if isinstance(c["axes"], str) else c["axes"]):
+            exp2 = exp2[::-1] if a_ == "z" else (exp2[:, ::-1, :] if a_ == "x" else exp2[:, :, ::-1])
+        ok4, r4 = call(out, "flip", lambda: tiltstack.flip_along_axes("in.mrc", c["axes"] if isinstance(c["axes"], str) else list(c["axes"]), **kw))
+        if ok4:
+            out.check(np.array_equal(to_images(r4, c["out_order"]), exp2), "flip:stale_file_content_after_rewrite", "")
     return out
